@@ -82,15 +82,21 @@ var Types = []TypeInfo{
 	// Type 20 is also a flow value: it is assignable to type 7, so a generator bug that passes
 	// the wrong provider's variable can still compile.
 	{20, "impl-struct", "local", true},    // i7, implements interface type 7
-	// Types 21.. are only used as Slice/Map element or parameter types
+	// Types 21..23 are only used as Slice/Map element or parameter types
 	// (assignability lattice), never as flow values.
 	{21, "unnamed-slice", "local", false}, // []int64, underlying type of type 3
 	{22, "basic", "local", true},          // int64, underlying type of type 2
 	{23, "unnamed-func", "local", false},  // func() int64, underlying type of type 19
+	// Type 24 is a flow value with two spellings ([]byte / []uint8, used alternately): identical
+	// types, different names.
+	{24, "byte-slice", "local", false},
 }
 
-// NumTypes is the number of type ids usable as flow values (ids 0..NumTypes-1).
-var NumTypes = 21
+// FlowTypes lists the type ids usable as flow values.
+var FlowTypes = []int{0, 1, 2, 3, 4, 5, 6, 7, 8, 9, 10, 11, 12, 13, 14, 15, 16, 17, 18, 19, 20, 24}
+
+// NumTypes is the number of type ids usable as flow values (the entries of FlowTypes).
+var NumTypes = len(FlowTypes)
 
 // Assignable is Go assignability of a value of type id from to a
 // variable of type id to, for the types of the pool.
